@@ -65,3 +65,11 @@ func canonLayout() imggen.LayoutStyle {
 			c.LayerD: c.Layer, c.Cfg1D: c.Cfg1, c.Cfg2D: c.Cfg2, c.Man1D: c.Man1, c.Man2D: c.Man2}},
 	}}
 }
+
+// Canon512 maps the sha256 digest of a canonical manifest to its sha512 digest
+// (a reference may name the same content by either algorithm).
+var Canon512 = map[string]string{
+	Canon.Man1D:  rm.Digest("sha512", Canon.Man1),
+	Canon.Man2D:  rm.Digest("sha512", Canon.Man2),
+	Canon.IndexD: rm.Digest("sha512", Canon.Index),
+}
